@@ -43,6 +43,21 @@ func (e *Engine) atomicAccess(st *State, p PtrV, kind string, pos token.Pos) {
 }
 
 func (e *Engine) atomicDone(st *State, p PtrV, kind string, old, new Term, pos token.Pos) {
+	if kind == "load" && len(p.Path) > 0 && p.Path[len(p.Path)-1].Field >= 0 && p.Cell == 0 && p.Global == nil {
+		base := p
+		base.Path = p.Path[:len(p.Path)-1]
+		bt := p.RootT
+		if len(base.Path) > 0 {
+			bt = base.Path[len(base.Path)-1].T
+		}
+		base.Elem = bt
+		if stt, ok := bt.Underlying().(*types.Struct); ok {
+			if n, ok := bt.(*types.Named); ok && n.Obj().Pkg() != nil {
+				target := n.Obj().Name() + "." + stt.Field(p.Path[len(p.Path)-1].Field).Name()
+				e.applyMarkRules(st, "load", target, n.Obj().Pkg(), map[string]Value{"self": base, "after": new})
+			}
+		}
+	}
 	if e.cur != nil && e.cur.proto != nil {
 		e.cur.proto.afterAtomic(e, st, p, kind, old, new, pos)
 	}
@@ -278,15 +293,49 @@ func init() {
 		}
 	}
 	builtinSpecs["(*sync.WaitGroup).Add"] = func(e *Engine, st *State, fn *ssa.Function, args []Value, pos token.Pos) []*State {
-		e.eventNamed(st, "wg.Add", e.locTerms(st, e.ptrArg(args[0])))
+		e.wgEvent(st, "wg.Add", e.ptrArg(args[0]))
 		return ret(st, nil)
 	}
 	builtinSpecs["(*sync.WaitGroup).Done"] = func(e *Engine, st *State, fn *ssa.Function, args []Value, pos token.Pos) []*State {
-		e.eventNamed(st, "wg.Done", e.locTerms(st, e.ptrArg(args[0])))
+		e.wgEvent(st, "wg.Done", e.ptrArg(args[0]))
 		return ret(st, nil)
 	}
 	builtinSpecs["(*sync.WaitGroup).Wait"] = func(e *Engine, st *State, fn *ssa.Function, args []Value, pos token.Pos) []*State {
-		e.eventNamed(st, "wg.Wait", e.locTerms(st, e.ptrArg(args[0])))
+		e.wgEvent(st, "wg.Wait", e.ptrArg(args[0]))
+		return ret(st, nil)
+	}
+	// ---- hash/maphash: a deterministic function of seed and bytes written ----
+	builtinSpecs["(*hash/maphash.Hash).SetSeed"] = func(e *Engine, st *State, fn *ssa.Function, args []Value, pos token.Pos) []*State {
+		p := e.ptrArg(args[0])
+		e.store(st, p, p.Elem, args[1])
+		return ret(st, nil)
+	}
+	builtinSpecs["(*hash/maphash.Hash).Write"] = func(e *Engine, st *State, fn *ssa.Function, args []Value, pos token.Pos) []*State {
+		p := e.ptrArg(args[0])
+		cur := e.load(st, p, p.Elem).(Term)
+		b := args[1].(SliceV)
+		f := e.ctx.Func("maphash.mix", []*Sort{SInt, SStr}, SInt)
+		e.store(st, p, p.Elem, T("("+f+" "+cur.S+" "+e.bytesToStr(st, b).S+")", SInt))
+		return ret(st, TupleV{b.Len, IfaceV{Tag: IntLit(0), Pay: IntLit(0)}})
+	}
+	builtinSpecs["(*hash/maphash.Hash).Sum64"] = func(e *Engine, st *State, fn *ssa.Function, args []Value, pos token.Pos) []*State {
+		p := e.ptrArg(args[0])
+		cur := e.load(st, p, p.Elem).(Term)
+		f := e.ctx.Func("maphash.sum", []*Sort{SInt}, SInt)
+		r := T("("+f+" "+cur.S+")", SInt)
+		st.assume(And(Le(IntLit(0), r), Le(r, T("18446744073709551615", SInt))))
+		return ret(st, r)
+	}
+	builtinSpecs["hash/maphash.MakeSeed"] = func(e *Engine, st *State, fn *ssa.Function, args []Value, pos token.Pos) []*State {
+		return ret(st, e.ctx.Fresh("seed", SInt))
+	}
+	builtinSpecs["time.NewTicker"] = func(e *Engine, st *State, fn *ssa.Function, args []Value, pos token.Pos) []*State {
+		r := st.alloc()
+		t := types.NewPointer(fn.Signature.Results().At(0).Type().(*types.Pointer).Elem())
+		_ = t
+		return ret(st, PtrV{Ref: r, RootT: fn.Signature.Results().At(0).Type().(*types.Pointer).Elem(), Elem: fn.Signature.Results().At(0).Type().(*types.Pointer).Elem()})
+	}
+	builtinSpecs["(*time.Ticker).Stop"] = func(e *Engine, st *State, fn *ssa.Function, args []Value, pos token.Pos) []*State {
 		return ret(st, nil)
 	}
 	builtinSpecs["runtime.Gosched"] = func(e *Engine, st *State, fn *ssa.Function, args []Value, pos token.Pos) []*State {
@@ -441,6 +490,17 @@ func init() {
 		e.store(st, p, p.Elem, e.sconcat(st, c, s))
 		return ret(st, TupleV{slen(s), IfaceV{Tag: IntLit(0), Pay: IntLit(0)}})
 	}
+}
+
+// wgEvent records a WaitGroup operation: name carries the field path, the
+// argument is the object that contains the WaitGroup.
+func (e *Engine) wgEvent(st *State, name string, p PtrV) {
+	suffix, _ := e.pathSuffix(p)
+	var args []Term
+	if p.Cell == 0 && p.Global == nil {
+		args = append(args, p.Ref)
+	}
+	e.eventNamed(st, name+":"+suffix, args)
 }
 
 func atomicEffect(writes bool) effectFn {
